@@ -4,3 +4,5 @@ import SdxModel.Hash
 import SdxModel.Anonymizer
 import SdxModel.Counters
 import SdxModel.Synth
+import SdxModel.Tree
+import SdxModel.Forest
